@@ -2,6 +2,7 @@
 #![allow(clippy::all)]
 #![allow(dead_code)]
 
+mod hist;
 mod par;
 mod props;
 mod refmodel;
